@@ -3,8 +3,8 @@ import Nstd.Generated.HashLink
   The two-table machine of `PtrModel.lean` (`pstep`) with the bodies TRANSLATED from the current headers
   (`Nstd/Generated/HashLink.lean`, tools/gen_hash.py) in place of the hand-written ones, for every operation whose member is
   translated: append / prepend / insert (→ `insert`), remove by key / iterator / value address, removeFront / removeBack,
-  clear, swap, find, contains.  The remaining operations (constructors, copy, assignment, bulk append / remove, the self-argument
-  members, value update, the read-only queries) are those of `pstep`.  `PropsLink.lean` proves `gstep = pstep` on every
+  clear, swap, find, contains, assignment, HashSet bulk append / remove, `==` / `!=`.  The remaining operations (constructors, copy,
+  the self-argument members, value update, the iterator walks of the queries) are those of `pstep`.  `PropsLink.lean` proves `gstep = pstep` on every
   state that represents a model state, hence the refinement theorems hold of this machine.
 -/
 namespace Nstd.Hash.Ptr
@@ -57,6 +57,18 @@ def gSwap (kind : Kind) (a b : PTable) : Option (PTable × PTable) :=
   | .map => HashLink.HashMap.swap a b
   | .set => HashLink.HashSet.swap a b
   | .pool => HashLink.PoolMap.swap a b
+
+def gAssign (kind : Kind) (h : Nat → Nat) (t o : PTable) : Option PTable :=
+  match kind with
+  | .map => HashLink.HashMap.assign h t o
+  | .set => HashLink.HashSet.assign h t o
+  | .pool => PTable.assignFrom kind h t o          -- PoolMap has no assignment (the operation is rejected)
+
+def gEqual (kind : Kind) (h : Nat → Nat) (t o : PTable) : Option Bool :=
+  match kind with
+  | .map => (HashLink.HashMap.equal h t o).map (·.2)
+  | .set => (HashLink.HashSet.equal h t o).map (·.2)
+  | .pool => PTable.equal kind t o                 -- PoolMap has no `operator==` (rejected)
 
 /-- result of an `insert`-based operation: the returned iterator designates an item -/
 def insertOut (kind : Kind) (s : PState) (t : Bool) (r : Option (PTable × Nxt)) (o : PTable → Nat → Option Out) : Option (PState × Out) :=
@@ -127,6 +139,22 @@ def gstep (kind : Kind) (h : Nat → Nat) (s : PState) (op : Op) : Option (PStat
     -- `find(key) != _end`
     match gFind kind h (s.get t) k with
     | some r => some (s, .flag (decide (r.2 ≠ .stl (s.get t).self)))
+    | none => none
+  | .assign t => optSet s t (gAssign kind h (s.get t) (s.get (!t))) .unit
+  | .appendAll t =>
+    optSet s t (if kind = Kind.set then HashLink.HashSet.appendAll h (s.get t) (s.get (!t))
+                else PTable.appendAll kind h (s.get t) (s.get (!t))) .unit
+  | .removeAll t =>
+    optSet s t (if kind = Kind.set then HashLink.HashSet.removeAll h (s.get t) (s.get (!t))
+                else PTable.removeAll h (s.get t) (s.get (!t))) .unit
+  | .equal t u =>
+    match gEqual kind h (s.get t) (s.get u) with
+    | some b => some (s, .flag b)
+    | none => none
+  | .notEqual t u =>
+    -- `!(*this == other)`
+    match gEqual kind h (s.get t) (s.get u) with
+    | some b => some (s, .flag (!b))
     | none => none
   | op => pstep kind h s op
 
